@@ -39,11 +39,11 @@ NUMPY_ONLY = {"rg", "gyration", "moments", "com", "cog", "inertia", "density"}
 def strategy(draw, tier="quick"):
     case = {"system": draw(st.sampled_from(["protein", "protein", "water"])), "nf": draw(st.integers(12, 20 if tier == "quick" else 40)),
             "seed": draw(st.integers(0, 2 ** 31)), "noise": draw(st.sampled_from([0.0, 0.005, 0.03])),
-            "cell": draw(st.sampled_from(["tric-vary", "ortho", "none", "ortho-then-tric", "tric-then-ortho"]))}
+            "cell": draw(st.sampled_from(["tric-vary", "ortho", "none", "ortho-then-tric", "tric-then-ortho", "tric-c-only"]))}
     if draw(st.integers(0, 3)) == 0:
         # a long trajectory: more frames than any internal block / chunk size is likely to be (256, 512), per-frame varying cell,
         # molecules wrapped atom by atom; single frames are taken around the block boundaries
-        case.update(long=True, nf=draw(st.sampled_from([300, 520, 700])), cell=draw(st.sampled_from(["tric-vary", "ortho", "ortho-then-tric"])))
+        case.update(long=True, nf=draw(st.sampled_from([300, 520, 700])), cell=draw(st.sampled_from(["tric-vary", "ortho", "ortho-then-tric", "tric-c-only"])))
     elif case["cell"] != "none":
         case["wrap"] = draw(st.booleans())     # every atom wrapped into the cell on its own (bonds cross the faces)
     return case
@@ -73,11 +73,14 @@ def build(case):
     t = md.Trajectory(xyz, base.topology, time=np.arange(nf) * 1.0)
     if case["cell"] != "none":
         g = (lambda f: f % 97) if case.get("long") else (lambda f: f)
-        L = np.array([[5.0 + 0.02 * g(f), 5.5, 6.0 + 0.01 * g(f)] for f in range(nf)], dtype=np.float32)
+        # "tric-c-only": a and b (and gamma) are the same in every frame, only the third vector changes (a membrane cell at constant
+        # area): the first numbers of the box matrix are bit-identical from frame to frame
+        L = np.array([[5.0 + (0.0 if case["cell"] == "tric-c-only" else 0.02 * g(f)), 5.5, 6.0 + 0.01 * g(f)] for f in range(nf)], dtype=np.float32)
         def rect(f):
             # the shape of the cell may change along the trajectory: rectangular first frame(s), skewed later, or the reverse
             return {"ortho": True, "ortho-then-tric": f < 2, "tric-then-ortho": f >= nf - 2}.get(case["cell"], False)
-        A = np.array([[90.0, 90.0, 90.0] if rect(f) else [75.0 + 0.1 * g(f), 85.0, 100.0] for f in range(nf)], dtype=np.float32)
+        beta = 90.0 if case["cell"] == "tric-c-only" else 85.0       # (c-only: beta = 90, so that c_x stays exactly 0 as well)
+        A = np.array([[90.0, 90.0, 90.0] if rect(f) else [75.0 + 0.1 * g(f), beta, 100.0] for f in range(nf)], dtype=np.float32)
         t.unitcell_lengths, t.unitcell_angles = L, A
         if case.get("long") or case.get("wrap"):
             # every atom wrapped into its frame's cell on its own: bonds, angles and torsions cross the periodic boundary
